@@ -42,6 +42,11 @@ type feFrame struct {
 	idx       int
 	call      *ssa.Call // call site in the parent frame
 	visits    map[*ssa.BasicBlock]int
+	// det: every branch since the last fork of this frame was decided (the path is executing
+	// concretely); blocks entered that way are counted separately, with a larger budget, so that
+	// a fully determined loop (over a literal argument list, say) is run to its end
+	det       bool
+	detVisits map[*ssa.BasicBlock]int
 }
 
 type feState struct {
@@ -57,7 +62,14 @@ type feState struct {
 	loads    map[*ssa.UnOp]feVal  // value a load of a local cell observed on this path
 	bind     map[ssa.Value]feVal  // parameters / free variables of inlined callees, results of inlined calls
 	tuples   map[*ssa.Call][]feVal
+	arr      map[feArrKey]feVal  // elements of local array cells stored with a known index
+	arrDirty map[*ssa.Alloc]bool // local arrays whose content is no longer known
 	seq      int
+}
+
+type feArrKey struct {
+	al *ssa.Alloc
+	i  int64
 }
 
 type feStore struct {
@@ -89,7 +101,8 @@ type feVal struct {
 
 func newFEState() *feState {
 	return &feState{phis: map[*ssa.Phi]constant.Value{}, phiSrc: map[*ssa.Phi]ssa.Value{}, mem: map[*ssa.Alloc]feVal{},
-		loads: map[*ssa.UnOp]feVal{}, bind: map[ssa.Value]feVal{}, tuples: map[*ssa.Call][]feVal{}}
+		loads: map[*ssa.UnOp]feVal{}, bind: map[ssa.Value]feVal{}, tuples: map[*ssa.Call][]feVal{},
+		arr: map[feArrKey]feVal{}, arrDirty: map[*ssa.Alloc]bool{}}
 }
 
 func (s *feState) top() *feFrame { return s.frames[len(s.frames)-1] }
@@ -102,6 +115,12 @@ func (s *feState) clone() *feState {
 		nf.visits = map[*ssa.BasicBlock]int{}
 		for k, v := range f.visits {
 			nf.visits[k] = v
+		}
+		if f.detVisits != nil {
+			nf.detVisits = map[*ssa.BasicBlock]int{}
+			for k, v := range f.detVisits {
+				nf.detVisits[k] = v
+			}
 		}
 		n.frames = append(n.frames, &nf)
 	}
@@ -128,6 +147,12 @@ func (s *feState) clone() *feState {
 	for k, v := range s.tuples {
 		n.tuples[k] = v
 	}
+	for k, v := range s.arr {
+		n.arr[k] = v
+	}
+	for k, v := range s.arrDirty {
+		n.arrDirty[k] = v
+	}
 	return n
 }
 
@@ -140,7 +165,7 @@ func (w *feWalker) Run() []*feEnd {
 		return nil
 	}
 	st := newFEState()
-	st.frames = []*feFrame{{fn: w.Fn, cur: w.Fn.Blocks[0], visits: map[*ssa.BasicBlock]int{}}}
+	st.frames = []*feFrame{{fn: w.Fn, cur: w.Fn.Blocks[0], visits: map[*ssa.BasicBlock]int{}, det: true}}
 	w.walk(st)
 	return w.Ends
 }
@@ -191,39 +216,65 @@ func (w *feWalker) walk(st *feState) {
 		fr := st.top()
 		b := fr.cur
 		if fr.idx == 0 {
-			fr.visits[b]++
-			if fr.visits[b] > 2 {
+			over := false
+			if fr.det && fr.visits[b] > 0 {
+				// re-entered while executing concretely
+				if fr.detVisits == nil {
+					fr.detVisits = map[*ssa.BasicBlock]int{}
+				}
+				fr.detVisits[b]++
+				over = fr.detVisits[b] > 48
+			} else {
+				fr.visits[b]++
+				over = fr.visits[b] > 2
+			}
+			if over {
 				w.paths++
 				w.Ends = append(w.Ends, &feEnd{State: st, Cut: true})
 				return
 			}
 			st.trail = append(st.trail, b)
 			st.trailSeq = append(st.trailSeq, st.seq)
-			// phis first
+			// phis first: all of a block's phis take their values at once, from the state at the
+			// end of the predecessor (a loop counter's next value is computed from its current one)
+			type phiNew struct {
+				phi *ssa.Phi
+				src ssa.Value
+				c   constant.Value
+				ok  bool
+			}
+			var news []phiNew
 			for _, in := range b.Instrs {
 				phi, ok := in.(*ssa.Phi)
 				if !ok {
 					break
 				}
-				delete(st.phis, phi)
-				delete(st.phiSrc, phi)
-				if fr.prev == nil {
-					continue
-				}
-				for i, p := range b.Preds {
-					if p == fr.prev {
-						src := phi.Edges[i]
-						if ps, ok := src.(*ssa.Phi); ok {
-							if s2, ok := st.phiSrc[ps]; ok {
-								src = s2
+				pn := phiNew{phi: phi}
+				if fr.prev != nil {
+					for i, p := range b.Preds {
+						if p == fr.prev {
+							src := phi.Edges[i]
+							if ps, ok := src.(*ssa.Phi); ok {
+								if s2, ok := st.phiSrc[ps]; ok {
+									src = s2
+								}
 							}
+							pn.src = src
+							pn.c, pn.ok = w.eval(st, phi.Edges[i])
+							break
 						}
-						st.phiSrc[phi] = src
-						if c, ok := w.eval(st, phi.Edges[i]); ok {
-							st.phis[phi] = c
-						}
-						break
 					}
+				}
+				news = append(news, pn)
+			}
+			for _, pn := range news {
+				delete(st.phis, pn.phi)
+				delete(st.phiSrc, pn.phi)
+				if pn.src != nil {
+					st.phiSrc[pn.phi] = pn.src
+				}
+				if pn.ok {
+					st.phis[pn.phi] = pn.c
 				}
 			}
 		}
@@ -238,6 +289,23 @@ func (w *feWalker) walk(st *feState) {
 				st.stores = append(st.stores, feStore{x, sv, st.seq, w.topInstr(st, x)})
 				if al := w.cellOf(st, x.Addr); al != nil {
 					st.mem[al] = sv
+				}
+				if ia, ok := x.Addr.(*ssa.IndexAddr); ok {
+					// an element of a local array (argument list of a variadic call, array literal)
+					var al *ssa.Alloc
+					if a, ok := ia.X.(*ssa.Alloc); ok {
+						al = a
+					} else if a, _, ok := w.localArray(st, ia.X); ok {
+						al = a
+					}
+					if al != nil {
+						if idx, ok := w.eval(st, ia.Index); ok && idx.Kind() == constant.Int {
+							i64, _ := constant.Int64Val(idx)
+							st.arr[feArrKey{al, i64}] = sv
+						} else {
+							st.arrDirty[al] = true
+						}
+					}
 				}
 			case *ssa.UnOp:
 				if x.Op == token.MUL {
@@ -257,7 +325,22 @@ func (w *feWalker) walk(st *feState) {
 				}
 				st.calls = append(st.calls, fc)
 				call, isCall := x.(*ssa.Call)
+				// a local array handed to a call that is not followed may be rewritten by it
+				escapes := func() {
+					if _, isBuiltin := x.Common().Value.(*ssa.Builtin); isBuiltin {
+						return
+					}
+					for _, a := range x.Common().Args {
+						if _, isSlice := a.Type().Underlying().(*types.Slice); !isSlice {
+							continue
+						}
+						if al, _, ok := w.localArray(st, a); ok {
+							st.arrDirty[al] = true
+						}
+					}
+				}
 				if !isCall || w.Inline == nil {
+					escapes()
 					continue
 				}
 				callee := x.Common().StaticCallee()
@@ -266,6 +349,7 @@ func (w *feWalker) walk(st *feState) {
 					callee, dynClosure = w.resolveCallee(st, x.Common().Value, 0)
 				}
 				if callee == nil || callee.Blocks == nil {
+					escapes()
 					continue
 				}
 				rec := false
@@ -275,6 +359,7 @@ func (w *feWalker) walk(st *feState) {
 					}
 				}
 				if rec || !w.Inline(callee, len(st.frames)) {
+					escapes()
 					continue
 				}
 				// a call whose result the caller of the walker pinned (Assume) is not followed:
@@ -293,6 +378,7 @@ func (w *feWalker) walk(st *feState) {
 					}
 				}
 				if pinned {
+					escapes()
 					continue
 				}
 				// bind parameters and free variables
@@ -312,7 +398,7 @@ func (w *feWalker) walk(st *feState) {
 						}
 					}
 				}
-				st.frames = append(st.frames, &feFrame{fn: callee, cur: callee.Blocks[0], call: call, visits: map[*ssa.BasicBlock]int{}})
+				st.frames = append(st.frames, &feFrame{fn: callee, cur: callee.Blocks[0], call: call, visits: map[*ssa.BasicBlock]int{}, det: true})
 				inlined = true
 			}
 			if inlined {
@@ -365,6 +451,7 @@ func (w *feWalker) walk(st *feState) {
 				continue
 			}
 			// fork
+			fr.det = false
 			other := st.clone()
 			other.free = append(other.free, condFact{t.Cond, false})
 			other.free = append(other.free, derivedFacts(other, t.Cond, false)...)
@@ -485,6 +572,45 @@ func (w *feWalker) eval(st *feState, v ssa.Value) (constant.Value, bool) {
 						}
 					}
 				}
+			}
+		}
+	}
+	if c, ok := v.(*ssa.Call); ok {
+		if bi, ok := c.Call.Value.(*ssa.Builtin); ok && bi.Name() == "len" && len(c.Call.Args) == 1 {
+			if _, n, ok := w.localArray(st, c.Call.Args[0]); ok {
+				return constant.MakeInt64(n), true
+			}
+		}
+	}
+	if u, ok := v.(*ssa.UnOp); ok && u.Op == token.MUL {
+		switch a := u.X.(type) {
+		case *ssa.IndexAddr:
+			// element of a local array whose content the path determines
+			if al, n, ok := w.localArray(st, a.X); ok {
+				if idx, ok := w.eval(st, a.Index); ok && idx.Kind() == constant.Int {
+					if i64, _ := constant.Int64Val(idx); i64 >= 0 && i64 < n {
+						if ev, has := st.arr[feArrKey{al, i64}]; has && ev.Known {
+							return ev.C, true
+						}
+					}
+				}
+			}
+		case *ssa.FieldAddr:
+			// field of a struct passed by value into a followed helper: the assumption made about
+			// that field of the caller's value holds for the copy
+			if al, ok := a.X.(*ssa.Alloc); ok {
+				if mv, ok := st.mem[al]; ok && mv.V != nil {
+					if c, ok := w.assumedField(st, mv.V, a.Field); ok {
+						return c, true
+					}
+				}
+			}
+		}
+	}
+	if f, ok := v.(*ssa.Field); ok {
+		if bv := w.evalVal(st, f.X); bv.V != nil && bv.V != f.X {
+			if c, ok := w.assumedField(st, bv.V, f.Field); ok {
+				return c, true
 			}
 		}
 	}
@@ -893,6 +1019,79 @@ func (w *feWalker) constTableLookup(st *feState, lk *ssa.Lookup) (val constant.V
 		return nil, true, true // present, value is not a constant
 	}
 	return e, true, true
+}
+
+// localArray resolves a slice value to the local array cell it covers entirely (`a[:]` of a
+// local [N]T, the form a variadic argument list takes), when the path still knows its content.
+func (w *feWalker) localArray(st *feState, v ssa.Value) (*ssa.Alloc, int64, bool) {
+	for d := 0; d < 4 && v != nil; d++ {
+		if x, ok := v.(*ssa.Slice); ok {
+			if x.Low != nil || x.High != nil || x.Max != nil {
+				return nil, 0, false
+			}
+			al, ok := x.X.(*ssa.Alloc)
+			if !ok || st.arrDirty[al] {
+				return nil, 0, false
+			}
+			pt, ok := al.Type().Underlying().(*types.Pointer)
+			if !ok {
+				return nil, 0, false
+			}
+			at, ok := pt.Elem().Underlying().(*types.Array)
+			if !ok {
+				return nil, 0, false
+			}
+			return al, at.Len(), true
+		}
+		var nv ssa.Value
+		if bv, ok := st.bind[v]; ok {
+			nv = bv.V
+		} else if u, ok := v.(*ssa.UnOp); ok {
+			if lv, ok := st.loads[u]; ok {
+				nv = lv.V
+			}
+		}
+		if nv == nil || nv == v {
+			return nil, 0, false
+		}
+		v = nv
+	}
+	return nil, 0, false
+}
+
+// assumedField: the assumed value of field #field of the struct value base, when the walker's
+// assumptions pin that field of the same value (read directly, or through the cell it lives in).
+func (w *feWalker) assumedField(st *feState, base ssa.Value, field int) (constant.Value, bool) {
+	var cell ssa.Value
+	if u, ok := base.(*ssa.UnOp); ok && u.Op == token.MUL {
+		cell = u.X
+	}
+	for k, c := range w.Assume {
+		switch x := k.(type) {
+		case *ssa.Field:
+			if x.Field == field && x.X == base {
+				return c, true
+			}
+		case *ssa.UnOp:
+			if x.Op != token.MUL {
+				continue
+			}
+			fa, ok := x.X.(*ssa.FieldAddr)
+			if !ok || fa.Field != field {
+				continue
+			}
+			if cell != nil && fa.X == cell {
+				return c, true
+			}
+			// base is the value the path last stored into the cell the assumption reads from
+			if al, ok := fa.X.(*ssa.Alloc); ok {
+				if mv, ok := st.mem[al]; ok && mv.V == base {
+					return c, true
+				}
+			}
+		}
+	}
+	return nil, false
 }
 
 // resolveCallee: the function a dynamic call invokes, when the called value is a
